@@ -134,7 +134,7 @@ class SimParallel(object):
             # the worker process gets the same id() seam as the caller's world
             from . import simid
             mode = simid.CURRENT[0].mode if simid.CURRENT[0] is not None else "reuse"
-            ch.send_eval("from sim import simid\nsimid.install(mode)\nresult = True", {"mode": mode})
+            ch.send_eval("from sim import simid, simempty\nsimid.install(mode)\nsimempty.install()\nresult = True", {"mode": mode})
             msg = ch.recv()
             if msg[0] != "ok":
                 raise HarnessError("could not install the id seam in a worker: %r" % (msg,))
